@@ -38,7 +38,9 @@ class Summaries:
         self.suffix = []
         self._register()
 
-    # iterator object: ("iter", region, remaining, pos0 ("y"|"n"|None), rev ("y"|"n"))
+    # iterator object: ("iter", region, remaining, pos0 ("y"|"n"|None), rev ("y"|"n"), lineage)
+    # lineage: ("L", n) identifies one iterator value through moves and `next` calls; clone() starts a new lineage.
+    # st.ghost[("exh", lineage)] is set when that lineage is known to be exhausted (next returned None, or count() consumed it)
     def iter_flags(self, st, o):
         rem = o[2]
         ex = None
@@ -50,7 +52,9 @@ class Summaries:
 
     def _register(self):
         E = self.exact
-        for p in ("core::slice::<impl [T]>::iter", "core::slice::<impl [T]>::iter_mut"):
+        for p in ("core::slice::<impl [T]>::iter", "core::slice::<impl [T]>::iter_mut",
+                  "core::slice::iter::<impl core::iter::IntoIterator for &'a [T]>::into_iter",
+                  "core::slice::iter::<impl core::iter::IntoIterator for &'a mut [T]>::into_iter"):
             E[p] = self.slice_iter
         E["core::slice::<impl [T]>::get"] = self.slice_get
         E["core::slice::<impl [T]>::get_mut"] = self.slice_get
@@ -170,7 +174,8 @@ class Summaries:
             region = d[1]
             off = d[2]
             pos0 = "y" if (is_int(off) and st.get_iv(off) == (0, 0)) else None
-        o = new_obj(("iter", region, ln, pos0, "n"))
+        # lineage = creation site (frame + call span), so that the same `.iter()` reached by two disjuncts joins
+        o = new_obj(("iter", region, ln, pos0, "n", ("L", (fr, self.span(t).get("loc", "")))))
         return [(st, o)]
 
     def iter_obj(self, st, a):
@@ -196,13 +201,14 @@ class Summaries:
         if oa is None or G.obj[oa][0] != "iter" or key is None:
             self.ctx.oblige("unmodelled-call", False, inst, self.span(t), "iterator `next` on an untracked iterator value")
             return [(st, _F()({("discr",): new_int(0, 1)}))]
-        _, region, rem, pos0, rev = G.obj[oa]
+        _, region, rem, pos0, rev, lin = G.obj[oa]
         out = []
         R = st.get_iv(rem)
         # None: nothing left
         if R[0] <= 0:
             s0 = st.copy()
             if s0.set_iv(rem, 0, 0):
+                s0.ghost[("exh", lin)] = const_int(1)
                 out.append((s0, none()))
         # Some: at least one left
         if R[1] >= 1:
@@ -222,7 +228,7 @@ class Summaries:
                 ep = self.elem_ptr(region, first=first)
                 if region and region[0] == "zip":
                     ep = None
-                s1.env[key] = new_obj(("iter", region, rem2, pos0 if isrev else "n", rev))
+                s1.env[key] = new_obj(("iter", region, rem2, pos0 if isrev else "n", rev, lin))
                 if ep is None:
                     out.append((s1, _F()({("discr",): const_int(1)})))
                 else:
@@ -236,16 +242,17 @@ class Summaries:
         oa, key = self.iter_obj(st, args[0])
         if oa is None or key is None:
             return None
-        _, region, rem, pos0, rev = G.obj[oa]
+        _, region, rem, pos0, rev, lin = G.obj[oa]
         R = st.get_iv(rem)
         out = []
         s0 = st.copy()
-        s0.env[key] = new_obj(("iter", region, const_int(0), "n", rev))
+        s0.env[key] = new_obj(("iter", region, const_int(0), "n", rev, lin))
+        s0.ghost[("exh", lin)] = const_int(1)
         out.append((s0, none()))
         if R[1] >= 1:
             r2 = new_int(0, R[1] - 1)
             st.add_fact(r2, rem, -1)
-            st.env[key] = new_obj(("iter", region, r2, "n", rev))
+            st.env[key] = new_obj(("iter", region, r2, "n", rev, lin))
             out.append((st, some(self.elem_ptr(region, first=None))))
         return out
 
@@ -253,6 +260,7 @@ class Summaries:
         oa, key = self.iter_obj(st, args[0])
         if oa is None:
             return None
+        st.ghost[("exh", G.obj[oa][5])] = const_int(1)       # count() consumes the iterator
         return [(st, G.obj[oa][2])]
 
     def iter_len(self, st, fr, inst, t, callee, args):
@@ -269,7 +277,9 @@ class Summaries:
         oa, key = self.iter_obj(st, args[0])
         if oa is None:
             return None
-        return [(st, oa)]
+        o = G.obj[oa]
+        # a clone starts a new lineage that remembers its parent
+        return [(st, new_obj(o[:5] + (("L", (fr, self.span(t).get("loc", ""))) + (o[5],),)))]
 
     def enumerate_assume(self, st, fr, inst, t, callee, args):
         """assumption A1 (an iterator yields fewer than 2^62 items): Enumerate's running index is below 2^62.
@@ -299,7 +309,7 @@ class Summaries:
         ra, rb = a[2], b[2]
         A, B = st.get_iv(ra), st.get_iv(rb)
         m = new_int(min(A[0], B[0]), min(A[1], B[1]), ("min", ra, rb))
-        return [(st, new_obj(("iter", ("zip",), m, None, "n")))]
+        return [(st, new_obj(("iter", ("zip",), m, None, "n", ("L", (fr, self.span(t).get("loc", ""))))))]
 
     def iter_any(self, st, fr, inst, t, callee, args):
         # Iterator::any(&mut self, f): pure predicate closures only (no captures)
@@ -318,11 +328,11 @@ class Summaries:
                 return None
             key, oa = found[0]
         if key is not None:
-            _, region, rem, pos0, rev = G.obj[oa]
+            _, region, rem, pos0, rev, lin = G.obj[oa]
             R = st.get_iv(rem)
             r2 = new_int(0, R[1])
             st.add_fact(r2, rem, 0)
-            st.env[key] = new_obj(("iter", region, r2, None, rev))
+            st.env[key] = new_obj(("iter", region, r2, None, rev, lin))
         return [(st, new_int(0, 1))]
 
     def generic_count(self, st, fr, inst, t, callee, args):
@@ -452,7 +462,10 @@ class Summaries:
             if not (st.add_fact(start, end, 0) and st.add_fact(end, ln, 0)):
                 return []
             E, S = st.get_iv(end), st.get_iv(start)
-            nl = self.I.diff_atom(st, end, start, max(E[0] - S[1], 0), E[1] - S[0])
+            if S == (0, 0):
+                nl = end
+            else:
+                nl = new_int(max(E[0] - S[1], 0), max(E[1] - S[0], 0), ("sub", end, start))
             noff = self.I.sum_atom(st, off, start) if is_int(off) else None
             return [(st, new_ptr(("slice", region, noff, nl)))]
         return None
